@@ -520,3 +520,134 @@ def rule_F3b(ctx):
         else:
             ctx.holds("F3b", key, f.where(), "every changed DD-block link is marked dirty or written on all non-failing paths")
     ctx.floor("F3b", 1, n, "(functions linking DD blocks)")
+
+
+# ---------------------------------------------------------------------------------------
+# F3c: dirty-flag discipline of the Vgroup / Vdata mirrors — a store to a persisted field must come with `marked`
+
+F3C_RECORDS = {"vgroup_desc": ("vpackvg", "marked"), "vdata_desc": ("vpackvs", "marked")}
+F3C_NAME_FIELDS = {"vgroup_desc": {"vgname", "vgclass"}, "vdata_desc": {"vsname", "vsclass"}}
+F3C_NOT_MUTATORS = {
+    "vunpackvg": "reader: fills the record from the file", "vunpackvs": "reader: fills the record from the file",
+    "oldunpackvg": "reader of the old format", "oldunpackvs": "reader of the old format",
+    "VPgetinfo": "reader", "VSPgetinfo": "reader", "vpackvg": "encoder (bumps the in-memory version to the one it writes)",
+    "vpackvs": "encoder", "VIget_vgroup_node": "allocator", "VSIget_vdata_node": "allocator",
+    "Vdetach": "the flush itself: writes the record and clears `marked`", "VSdetach": "the flush itself",
+    "VSattach": "constructor of a new in-memory Vdata (default interlace of a not-yet-defined Vdata; the header is written once "
+                "fields are set, VSsetfields marks it)",
+    "vimakecompat": "old-format converter: writes the converted records itself", "vmakecompat": "old-format converter",
+}
+COPY_TO = {"strcpy", "strncpy", "HIstrncpy", "memcpy", "strcat"}
+
+
+def _persisted_fields(prog):
+    from .codec import codec_events
+    out = {}
+    for rec, (packer, mark) in F3C_RECORDS.items():
+        f = prog.func(packer)
+        fields = set(F3C_NAME_FIELDS[rec])
+        if f is not None:
+            for ev, st in codec_events(f):
+                e = strip(ev.expr)
+                while kind(e) in ("cast", "idx"):
+                    e = strip(e[2] if kind(e) == "cast" else e[1])
+                if kind(e) == "mem" and e[3] == rec:
+                    fields.add(e[2])
+                elif kind(e) == "mem":
+                    b = strip(e[1])
+                    while kind(b) in ("idx", "mem") and not (kind(b) == "mem" and b[3] == rec):
+                        b = strip(b[1])
+                    if kind(b) == "mem" and b[3] == rec:
+                        fields.add(b[2])
+        fields.discard("version")
+        fields.discard("more")
+        out[rec] = fields
+    return out
+
+
+def _rec_store(e, fields):
+    """(record, base path) if expression e designates a persisted field of a tracked record"""
+    e = strip(e)
+    while kind(e) in ("idx", "deref") or (kind(e) == "mem" and e[3] not in fields):
+        e = strip(e[1])
+    if kind(e) == "mem" and e[3] in fields and e[2] in fields[e[3]]:
+        return e[3], path(e[1])
+    return None
+
+
+class F3c(PathAnalysis):
+    def __init__(self, prog, fields):
+        super().__init__(prog)
+        self.fields = fields
+        self.exits = []
+        self.where = {}
+
+    def init_user(self, func):
+        return (frozenset(), frozenset())  # (bases with unmarked stores, bases marked)
+
+    def on_stmt(self, func, bid, idx, stmt, env, user):
+        pend, marked = set(user[0]), set(user[1])
+        for n in walk(stmt["e"]):
+            if n[0] == "asg":
+                t = strip(n[2])
+                if kind(t) == "mem" and t[3] in F3C_RECORDS and t[2] == F3C_RECORDS[t[3]][1]:
+                    b = path(t[1])
+                    if not is_int(n[3], 0):
+                        marked.add(b)
+                        pend.discard(b)
+                    continue
+                rs = _rec_store(t, self.fields)
+                if rs and rs[1] not in marked:
+                    pend.add(rs[1])
+                    self.where.setdefault(rs[1], (n[4], render(n)[:60]))
+            elif n[0] == "incdec":
+                rs = _rec_store(n[3], self.fields)
+                if rs and rs[1] not in marked:
+                    pend.add(rs[1])
+                    self.where.setdefault(rs[1], (n[4], render(n)[:60]))
+            elif n[0] == "call" and n[1] in COPY_TO and n[3]:
+                rs = _rec_store(n[3][0], self.fields)
+                if rs and rs[1] not in marked:
+                    pend.add(rs[1])
+                    self.where.setdefault(rs[1], (n[5], render(n)[:60]))
+        return (frozenset(pend), frozenset(marked))
+
+    def on_exit(self, func, bid, retval, env, user):
+        self.exits.append((classify_ret(retval, self.fails), user[0]))
+
+
+def rule_F3c(ctx, records=None):
+    prog = ctx.prog
+    fields = _persisted_fields(prog)
+    if records:
+        fields = {r: f for r, f in fields.items() if r in records}
+    n = 0
+    for f in prog.lib_funcs():
+        touches = False
+        for _, _, _, nn in f.nodes(True):
+            if nn[0] == "asg" and _rec_store(nn[2], fields):
+                touches = True
+            elif nn[0] == "incdec" and _rec_store(nn[3], fields):
+                touches = True
+            elif nn[0] == "call" and nn[1] in COPY_TO and nn[3] and _rec_store(nn[3][0], fields):
+                touches = True
+        if not touches:
+            continue
+        key = "F3c:%s" % f.name
+        if f.name in F3C_NOT_MUTATORS:
+            ctx.excepted("F3c", key, f.where(), F3C_NOT_MUTATORS[f.name])
+            continue
+        n += 1
+        a = F3c(prog, fields)
+        a.fails = fail_values(f, prog)
+        a.run(f)
+        bad = sorted({b for cls, pend in a.exits if cls != "fail" for b in pend})
+        if bad:
+            b = bad[0]
+            ln, what = a.where.get(b, (f.line, "?"))
+            ctx.violated("F3c", key + ":" + b, f.where(ln),
+                         "a persisted field of `%s` is changed (%s) but on a non-failing path `%s->marked` is never set: the change is lost "
+                         "at detach and the file keeps the old record" % (b, what, b))
+        else:
+            ctx.holds("F3c", key, f.where(), "every non-failing path that changes a persisted field also sets `marked`")
+    ctx.floor("F3c", 6, n, "(functions changing persisted Vgroup/Vdata fields)")
